@@ -314,7 +314,9 @@ def _ctor_call_nodes(prog, fi, cfg, class_qual):
 def rl2(ctx, R):
     prog = ctx.prog
     init = prog.func("tdms.TdmsFile.__init__")
-    cfg = ctx.cfg(init)
+    # "returns or raises": KeyboardInterrupt / SystemExit raised while the file is being read leave through `except Exception`
+    # untouched, so only a bare except or BaseException (or a finally / a context manager) covers every exit
+    cfg = ctx.cfg(init, catch_all_names=("BaseException",))
     ctor_nodes = _ctor_call_nodes(prog, init, cfg, "reader.TdmsReader")
     if len(ctor_nodes) != 1:
         raise AnchorMissing("tdms.TdmsFile.__init__: exactly one `x = TdmsReader(...)` assignment (found %d)" % len(ctor_nodes))
